@@ -240,6 +240,21 @@ class VectorParameter:
     def __iter__(self):
         return iter(self._parameters)
 
+    def __matmul__(self, other: object) -> Expression:
+        """Dot product with a vector of variables: ``prices @ quantities``.
+
+        The parameters stay symbolic, so later ``set()`` calls are honoured.
+        """
+        from optyx.core.vectors import VectorExpression, VectorVariable
+
+        if isinstance(other, (VectorVariable, VectorExpression)):
+            return VectorExpression(self._parameters).dot(other)
+        return NotImplemented
+
+    def __rmatmul__(self, other: object) -> Expression:
+        """Dot product with the vector on the left: ``quantities @ prices``."""
+        return self.__matmul__(other)
+
     def set(self, values: ArrayLike) -> None:
         """Update all parameter values.
 
@@ -472,7 +487,9 @@ class MatrixParameter:
         """Matrix multiplication with a vector or matrix.
 
         Args:
-            other: Vector (1D) or matrix (2D) to multiply.
+            other: Vector (1D) or matrix (2D) to multiply, or a vector of
+                variables (``Sigma @ x``), which gives a symbolic vector whose
+                entries read the matrix values at evaluation time.
 
         Returns:
             Result of matrix multiplication.
@@ -480,8 +497,36 @@ class MatrixParameter:
         Example:
             >>> result = A @ x_values  # Matrix-vector product
         """
+        from optyx.core.vectors import VectorExpression, VectorVariable
+
+        if isinstance(other, (VectorVariable, VectorExpression)):
+            return self._matmul_symbolic(other)  # type: ignore[return-value]
         other_arr = np.asarray(other)
         return self._values @ other_arr
+
+    def _matmul_symbolic(self, vector: object) -> object:
+        """``self @ vector`` for a VectorVariable / VectorExpression.
+
+        Every matrix entry is an updatable parameter expression, so that
+        ``x.dot(Sigma @ x)`` follows later ``Sigma.set(...)`` calls.
+        """
+        from optyx.core.errors import DimensionMismatchError
+        from optyx.core.vectors import VectorExpression
+
+        elements = list(vector)  # type: ignore[call-overload]
+        if self.cols != len(elements):
+            raise DimensionMismatchError(
+                operation="matrix-vector product",
+                left_shape=self.shape,
+                right_shape=len(elements),
+            )
+        rows: list[Expression] = []
+        for i in range(self.rows):
+            row_expr: Expression = _MatrixParameterEntry(self, i, 0) * elements[0]
+            for j in range(1, self.cols):
+                row_expr = row_expr + _MatrixParameterEntry(self, i, j) * elements[j]
+            rows.append(row_expr)
+        return VectorExpression(rows)
 
     def __rmatmul__(self, other: ArrayLike) -> NDArray[np.floating]:
         """Right matrix multiplication.
@@ -498,3 +543,45 @@ class MatrixParameter:
     def __repr__(self) -> str:
         sym_str = ", symmetric=True" if self._symmetric else ""
         return f"MatrixParameter('{self.name}', shape={self._shape}{sym_str})"
+
+
+class _MatrixParameterEntry(Parameter):
+    """One entry of a MatrixParameter as a scalar parameter expression.
+
+    Reads the owning matrix at evaluation time, so updates made through
+    ``MatrixParameter.set`` are seen by every expression built from it.
+    """
+
+    __slots__ = ("_matrix", "_index")
+
+    def __init__(self, matrix: MatrixParameter, i: int, j: int) -> None:
+        self.name = f"{matrix.name}[{i},{j}]"
+        self._matrix = matrix
+        self._index = (i, j)
+
+    @property
+    def value(self) -> float:  # type: ignore[override]
+        """Current value of the matrix entry."""
+        return float(self._matrix._values[self._index])
+
+    def set(self, value: float | int | ArrayLike) -> None:
+        raise ParameterError(
+            parameter_name=self.name,
+            message="entries of a MatrixParameter are updated through MatrixParameter.set()",
+        )
+
+    def evaluate(
+        self, values: Mapping[str, ArrayLike | float]
+    ) -> NDArray[np.floating] | float:
+        return self.value
+
+    def __hash__(self) -> int:
+        return hash(("_MatrixParameterEntry", id(self._matrix), self._index))
+
+    def __eq__(self, other: object) -> bool:
+        if isinstance(other, _MatrixParameterEntry):
+            return self._matrix is other._matrix and self._index == other._index
+        return False
+
+    def __repr__(self) -> str:
+        return f"Parameter('{self.name}', value={self.value})"
